@@ -10,6 +10,7 @@ import (
 	"net/http/httptest"
 	"reflect"
 	"strings"
+	"sync"
 	"testing"
 	"time"
 
@@ -511,5 +512,67 @@ func TestC20Routing(t *testing.T) {
 			col.Label("route:default")
 		}
 		col.Case(upgrade != "" && exactAccept, hx.JSON(desc), func() any { return desc })
+	})
+}
+
+// TestNIP11ConcurrentDocuments: several muxes with documents of their own (one process may
+// serve several relays), asked at the same time from many goroutines. Every answer is the
+// document of the mux that was asked, whole. Sequential requests cannot tell a per-request
+// encoding from one that shares scratch state between requests.
+func TestNIP11ConcurrentDocuments(t *testing.T) {
+	col := ev.For("C20").SetRule(c20Rule)
+	rapid.Check(t, func(t *rapid.T) {
+		nd := rapid.IntRange(2, 4).Draw(t, "documents")
+		muxes := make([]*mocrelay.ServeMux, nd)
+		exps := make([]string, nd)
+		for i := range muxes {
+			doc, exp, _ := drawNIP11(t)
+			// documents of different lengths: a name that grows with i
+			doc.Name = strings.Repeat(fmt.Sprintf("relay-%d-", i), 1+i*rapid.IntRange(1, 40).Draw(t, "namelen"))
+			exp["name"] = doc.Name
+			muxes[i] = &mocrelay.ServeMux{NIP11: doc}
+			exps[i] = hx.JSON(exp)
+		}
+		workers := rapid.IntRange(4, 24).Draw(t, "workers")
+		rounds := rapid.IntRange(500, 4000).Draw(t, "rounds")
+		desc := map[string]any{"mode": "concurrent-documents", "documents": nd, "workers": workers, "rounds": rounds}
+		var mu sync.Mutex
+		bad := ""
+		var wg sync.WaitGroup
+		for g := 0; g < workers; g++ {
+			wg.Add(1)
+			go func(g int) {
+				defer wg.Done()
+				for i := 0; i < rounds; i++ {
+					k := (g + i) % nd
+					req := httptest.NewRequest("GET", "/", nil)
+					req.Header.Set("Accept", "application/nostr+json")
+					w := httptest.NewRecorder()
+					muxes[k].ServeHTTP(w, req)
+					why := ""
+					if w.Code != 200 {
+						why = fmt.Sprintf("status %d", w.Code)
+					} else if v, err := decodeGeneric(w.Body.Bytes()); err != nil {
+						why = "body is not valid JSON: " + err.Error() + ": " + gen.Short(w.Body.String())
+					} else if got := hx.JSON(v); got != exps[k] {
+						why = "document differs from the configuration of the mux that was asked: got " + got + " want " + exps[k]
+					}
+					if why != "" {
+						mu.Lock()
+						if bad == "" {
+							bad = fmt.Sprintf("worker %d round %d mux %d: %s", g, i, k, why)
+						}
+						mu.Unlock()
+						return
+					}
+				}
+			}(g)
+		}
+		wg.Wait()
+		if bad != "" {
+			hx.Fail(t, ev.Failure{Property: "C20", Signature: "nip11-concurrent", Clause: "Accept: application/nostr+json is answered with the configured relay information document (valid JSON equal to the configuration), also while other requests are served", Case: desc, Observed: bad})
+		}
+		col.Label("mode:concurrent-documents")
+		col.Case(true, hx.JSON(desc)+exps[0], func() any { return desc })
 	})
 }
